@@ -106,6 +106,10 @@ theorem C13_gen_addPoint_merge (o : FOps) (size : Int) (hs : 2 ≤ size) (yAt : 
   · intro h; exact ⟨⟨this, h.1⟩, h.2⟩
   · intro h; exact ⟨h.1.2, h.2⟩
 
+/-- non-vacuity of `C13_gen_addPoint_merge`: three stored ordinates `5, 7, 7` and a new `7` -/
+example : Gen.C13.addPointMerge ieee 3 (fun i => if i = 0 then 5 else 7) 7 :=
+  (C13_gen_addPoint_merge ieee 3 (by decide) _ 7 7 7 (by decide +kernel) (by decide +kernel)).mp ⟨rfl, rfl⟩
+
 /-- the merge test is off for fewer than two stored points -/
 theorem C13_gen_addPoint_merge_small (o : FOps) (size : Int) (hs : size < 2) (yAt : Rat → Rat) (y : Rat) :
     ¬ Gen.C13.addPointMerge o size yAt y := by
